@@ -11,6 +11,7 @@ import (
 	"verif/harness/internal/ev"
 	"verif/harness/internal/gen"
 	"verif/harness/internal/oracle"
+	"verif/harness/internal/tape"
 )
 
 // C04 - wordlist choices uniform and independent.
@@ -30,6 +31,7 @@ func c04Run(c c04Case) error {
 	if err != nil {
 		return &ev.Skip{Why: "empty list"}
 	}
+	m = declinedSep(w.Sep, m)
 	capL := ev.Pick(20000, 200000)
 	if _, ok := treeSize(len(kept), w.Length, len(m.Values), w.Scheme, w.Sep.Kind != "const", capL); !ok {
 		return &ev.Skip{Why: "tree too large"}
@@ -37,6 +39,14 @@ func c04Run(c c04Case) error {
 	want, _, ok := refWLDist(kept, w.Length, w.Scheme, m.Values)
 	if !ok {
 		return &ev.Skip{Why: "scheme not defined by the statement"}
+	}
+	// a generation over the same list that dies half-way (the source fails),
+	// recovered by the caller, must leave nothing behind for later generations
+	{
+		dying := *r // a copy of the recipe value: same list, same separator function
+		dying.Length = w.Length + 2
+		dying.Capitalize = spg.CSAll
+		callRaw(&tape.Tape{TailKey: 0x4441, Fault: &tape.Fault{AtRead: 1 + len(kept)%3, Persist: true}}, dying.Generate)
 	}
 	got, err := enumWL(r, capL+10)
 	if err != nil {
